@@ -1,6 +1,6 @@
 """C09 SuperscalarHash programs are well-formed and spec-conformant for every key."""
 import astq
-from rules import a64sem, spec, sshash, jitcross
+from rules import a64hsem, a64sem, jitcross, rvhsem, spec, sshash, x86hsem
 
 LEVEL = 'other'
 TECHNIQUE = 'exhaustiveness over the instruction enumeration in generator / interpreter / x86 emitter, guard-dominates-choice rules for the operand constraints of Table 6.1.1, CFG dominance for the size bound, table agreement with spec 6.1-6.3, known-bits on emitted immediates'
@@ -27,3 +27,6 @@ def run(ctx, R):
     jitcross.rule_ssexh(ctx, R, 'a64', F)
     jitcross.rule_ssexh(ctx, R, 'rv64', F)
     a64sem.rule_immhelp(ctx, R)      # constants of IADD_C* / IXOR_C* reach the A64 code through emitMovImmediate / emitAddImmediate
+    x86hsem.rule_ss_hsem(ctx, R)
+    a64hsem.rule_ss_hsem(ctx, R)
+    rvhsem.rule_ss_hsem(ctx, R)
